@@ -9,7 +9,7 @@ Go functions mirrored (file : function):
                               createExternalReferencesForTLSSecretsResolver
   graph/configmaps.go       : configMapResolver.resolve (PEM/X.509 parsing = scenario bit `caOK`)
   graph/backend_tls_policy.go : validateBackendTLSPolicy, processBackendTLSPolicies (CaCertRef)
-  graph/backend_refs.go     : findBackendTLSPolicyForService, validateBackendTLSPolicyMatchingAllBackends,
+  graph/backend_refs.go     : findBackendTLSPolicyForService, validateBackendTLSPolicyMatchingAllBackends (as of e38b1f9),
                               the "mark all backendRefs invalid" step of addBackendRefsToRules
   dataplane/configuration.go: buildSSLKeyPairs, generateSSLKeyPairID, generateCertBundleID,
                               listenerHostnameMoreSpecific, hostPathRules.upsertListener/upsertRoute (listenersForHost),
@@ -320,26 +320,21 @@ def findBTP (pols : List BTP) (refNs refName : Name) : Option BTP :=
 
 /-! ### do all backends of a rule agree? -/
 
-/-- the closure `checkPoliciesEqual` (true when the policies DIFFER): slices.Equal on the CA refs,
-POINTER comparison of wellKnownCACertificates, string comparison of the hostname -/
-def policiesDiffer (p1 p2 : BTP) : Bool :=
-  p1.refs ≠ p2.refs ||
-  (match p1.wk, p2.wk with
-   | none, none => false
-   | some _, some _ => p1.id ≠ p2.id
-   | _, _ => true) ||
-  p1.hostname ≠ p2.hostname
+/-- the configurations of two policies differ: CA references (local to the policy namespace: the same ConfigMap
+name in another namespace is another ConfigMap), wellKnownCACertificates by VALUE, hostname -/
+def configDiffer (p1 p2 : BTP) : Bool :=
+  p1.refs ≠ p2.refs || (!p1.refs.isEmpty && p1.ns ≠ p2.ns) || p1.wk ≠ p2.wk || p1.hostname ≠ p2.hostname
 
-/-- the loop of validateBackendTLSPolicyMatchingAllBackends; `ref` is `referencePolicy` -/
-def mismatchFrom (ref : Option BTP) : List (Option BTP) → Bool
+/-- the closure `policiesDiffer` of validateBackendTLSPolicyMatchingAllBackends (nil = no policy) -/
+def policiesDiffer : Option BTP → Option BTP → Bool
+  | none, none => false
+  | some a, some b => configDiffer a b
+  | _, _ => true
+
+/-- the loop of validateBackendTLSPolicyMatchingAllBackends: every backend is compared with the first one -/
+def mismatch : List (Option BTP) → Bool
   | [] => false
-  | none :: rest => if ref.isSome then true else mismatchFrom ref rest
-  | some p :: rest =>
-    match ref with
-    | none => mismatchFrom (some p) rest
-    | some r => if policiesDiffer p r then true else mismatchFrom ref rest
-
-def mismatch (bs : List (Option BTP)) : Bool := mismatchFrom none bs
+  | first :: rest => rest.any fun b => policiesDiffer b first
 
 structure BRef where
   pol : Option BTP
@@ -350,25 +345,33 @@ structure BRef where
 def validateRule (bs : List BRef) : List BRef :=
   if bs.length > 1 && mismatch (bs.map (·.pol)) then bs.map fun b => { b with valid := false } else bs
 
-/-- backend `b` does not carry the configuration of policy `r` -/
-def differsFrom (r : BTP) : Option BTP → Bool
-  | none => true
-  | some p => policiesDiffer p r
+/-! #### the loop BEFORE fix e38b1f9 (kept as a regression detector: `NGF.Props.C16` proves on witnesses that it
+misses `[no policy, P]` and same-named ConfigMaps of different namespaces; the direct-call correspondence reports
+when the real code behaves like it again) -/
 
-/-- REPAIRED comparison (candidate fix, notes/C16.md): CA references are local to the policy namespace (the same
-ConfigMap name in another namespace is another ConfigMap), and `wellKnownCACertificates` is compared by VALUE -/
-def policiesDifferR (p1 p2 : BTP) : Bool :=
-  p1.refs ≠ p2.refs || (!p1.refs.isEmpty && p1.ns ≠ p2.ns) || p1.wk ≠ p2.wk || p1.hostname ≠ p2.hostname
+/-- pre-fix closure `checkPoliciesEqual` (true when the policies DIFFER): slices.Equal on the un-namespaced CA refs,
+POINTER comparison of wellKnownCACertificates, string comparison of the hostname -/
+def policiesDifferPre (p1 p2 : BTP) : Bool :=
+  p1.refs ≠ p2.refs ||
+  (match p1.wk, p2.wk with
+   | none, none => false
+   | some _, some _ => p1.id ≠ p2.id
+   | _, _ => true) ||
+  p1.hostname ≠ p2.hostname
 
-def differsFromR (r : BTP) : Option BTP → Bool
-  | none => true
-  | some p => policiesDifferR p r
-
-/-- REPAIRED loop (candidate fix, notes/C16.md): compare every backend with the first one. -/
-def mismatchRepaired : List (Option BTP) → Bool
+/-- pre-fix loop; `ref` is `referencePolicy` -/
+def mismatchFromPre (ref : Option BTP) : List (Option BTP) → Bool
   | [] => false
-  | none :: rest => rest.any (·.isSome)
-  | some r :: rest => rest.any (differsFromR r)
+  | none :: rest => if ref.isSome then true else mismatchFromPre ref rest
+  | some p :: rest =>
+    match ref with
+    | none => mismatchFromPre (some p) rest
+    | some r => if policiesDifferPre p r then true else mismatchFromPre ref rest
+
+def mismatchPre (bs : List (Option BTP)) : Bool := mismatchFromPre none bs
+
+def validateRulePre (bs : List BRef) : List BRef :=
+  if bs.length > 1 && mismatchPre (bs.map (·.pol)) then bs.map fun b => { b with valid := false } else bs
 
 /-! ### proxy TLS settings of a location -/
 
